@@ -6,6 +6,7 @@ import (
 	"sort"
 	"strconv"
 	"strings"
+	"sync"
 	"time"
 
 	"github.com/thushan/olla/internal/core/constants"
@@ -63,8 +64,14 @@ var (
 	modelGroupPool    = make([]ModelGroupSummary, 0, 16)
 )
 
+// the pools above are shared by every request: one request at a time may use them
+var modelsStatusMu sync.Mutex
+
 func (a *Application) modelsStatusHandler(w http.ResponseWriter, r *http.Request) {
 	ctx := r.Context()
+
+	modelsStatusMu.Lock()
+	defer modelsStatusMu.Unlock()
 
 	detailed := r.URL.Query().Get("detailed") == queryValueTrue
 	groupBy := r.URL.Query().Get("group")
